@@ -23,7 +23,7 @@ ASSUMPTIONS = [
     "scipy asymmetric errors only on the two-parameter problem (1.3 s each)",
 ]
 TOL_VAL = {"iminuit": 0.03, "scipy": 0.05}
-PROBLEMS = [("xy", "linoff"), ("xy", "quadoff"), ("xy", "basis3"), ("indexed", "idx3")]
+PROBLEMS = [("xy", "linoff"), ("xy", "quadoff"), ("xy", "basis3"), ("indexed", "idx3"), ("xy", "lin@1e-5")]  # last: y in units x1e-5
 MIX_KINDS = ["y-abs", "y-abs-rho", "y-cov", "y-rel"]
 CONS = [(), ("simple",), ("matrix-cov",), ("simple-rel", "matrix-cor")]
 
@@ -48,13 +48,15 @@ def jobs(tier, seed):
     for vv in ([v] if tier == "quick" else [0, 1, 2]):
         for prob in PROBLEMS:
             for backend in ("iminuit", "scipy"):
+                if "@" in prob[1] and backend == "scipy":
+                    continue  # the scipy backend is not scale invariant (open finding KF-C15-02); the small-unit problem is run with iminuit
                 for mi, mix in enumerate(mixes()):
                     specs.append((prob, backend, mix, vv, tier))
     return specs
 
 
 def bound(tier, seed):
-    return "4 linear problems x 10 source mixes x all single fixed parameters (+1 pair) x 4 constraint sets x 2 backends x 2 starting points; valuation(s) %s" % ((seed % 3) if tier == "quick" else "0,1,2")
+    return "5 linear problems (one with y in units x1e-5) x 10 source mixes x all single fixed parameters (+1 pair) x 4 constraint sets x 2 backends x 2 starting points; valuation(s) %s" % ((seed % 3) if tier == "quick" else "0,1,2")
 
 
 def build_ops(mix, cons, start, fixed):
@@ -135,9 +137,16 @@ def check_fit(w, backend, with_asym):
     return out
 
 
+def _world(ftype, model, v, backend):
+    if "@" in model:
+        m, sc = model.split("@")
+        return FitWorld(ftype, "chi2", model=m, v=v, n=8, minimizer=backend, yscale=float(sc))
+    return FitWorld(ftype, "chi2", model=model, v=v, n=8, minimizer=backend)
+
+
 def execute(cfg, ops, with_asym):
     (ftype, model), backend, v = cfg
-    w = FitWorld(ftype, "chi2", model=model, v=v, n=8, minimizer=backend)
+    w = _world(ftype, model, v, backend)
     with warnings.catch_warnings():
         warnings.simplefilter("ignore")
         for op in ops:
@@ -149,7 +158,7 @@ def run_job(spec):
     prob, backend, mix, v, tier = spec
     res = JobResult()
     cfg = (prob, backend, v)
-    w0 = FitWorld(prob[0], "chi2", model=prob[1], v=v, n=8, minimizer=backend)
+    w0 = _world(prob[0], prob[1], v, backend)
     names = w0.par_names
     for cons in CONS:
         if any(n not in names for c in cons for n in ([w0.con_specs[c].get("name")] if w0.con_specs[c]["form"] == "simple" else w0.con_specs[c]["names"])):
@@ -157,7 +166,7 @@ def run_job(spec):
         for fixed in fixed_subsets(names):
             for start in ("P0", "P1"):
                 ops = build_ops(mix, cons, start, fixed)
-                with_asym = backend == "iminuit" or (prob[1] == "linoff" and len(mix) == 1 and not fixed and start == "P0")
+                with_asym = (backend == "iminuit" and "@" not in prob[1]) or (prob[1] == "linoff" and len(mix) == 1 and not fixed and start == "P0")
                 hist = [dict(cfg=[list(prob), backend, v], asym=with_asym)] + [list(o) for o in ops]
                 try:
                     w, bad = execute(cfg, ops, with_asym)
